@@ -217,7 +217,7 @@ def _from_call(F, body, term, callee, comp, depth=0):
     if not sites:
         return False
     for cb, ci, ct in sites:
-        args = [Terms(F, cb, inline_depth=1).operand(a) for a in ct["args"]]
+        args = [Terms(F, cb, inline_depth=1, stops=(callee,)).operand(a) for a in ct["args"]]
         if not _from_call(F, cb, subst(term, args), callee, comp, depth + 1):
             return False
     return True
